@@ -34,7 +34,8 @@ func main() {
 		c3.Lap("C03", &t0, "decision table")
 		// (3) forced schedule
 		c3.RunSchedules(e, r, "C03", e.N(4, 40))
-		c3.Lap("C03", &t0, "forced schedule")
+		c3.RunCRSchedules(e, r, "C03", e.N(3, 20))
+		c3.Lap("C03", &t0, "forced schedules")
 		// (2) histories: the C03 generator, then the general plugin generator under the C03 monitor
 		p := c3.ProfileC03()
 		b := c3.RunScripts(e, "C03", e.N(1500, 14000), func(rng *rand.Rand) (plugin.Conf, plugin.Script, int) {
